@@ -1,6 +1,9 @@
 package c14
 
 import (
+	"go.pennock.tech/tabular/auto"
+	"go.pennock.tech/tabular/texttable"
+	"go.pennock.tech/tabular/texttable/decoration"
 	"os"
 	"testing"
 
@@ -90,3 +93,41 @@ func caseGen() *rapid.Generator[Case] {
 }
 
 func TestProp(t *testing.T) { prop.Rapid(t, caseGen()) }
+
+// TestDefault: a table rendered with the text renderer's default decoration renders the same bytes again after the
+// application has registered decorations of its own under stock names in between (new wrappers each time, and one
+// kept wrapper): what the default looks like was settled with the first render.  Own process: the registry is global.
+func TestDefault(t *testing.T) {
+	s := gen.S
+	tables := [][]gen.Op{
+		{{K: "hdr", Items: []gen.Item{s("k"), s("value")}}, {K: "rowitems", Items: []gen.Item{s("a"), s("b\nc")}}, {K: "sep"}, {K: "rowitems", Items: []gen.Item{s("wide cell")}}},
+		{{K: "rowitems", Items: []gen.Item{s("no"), s("header")}}},
+	}
+	var n int64
+	for _, ops := range tables {
+		tb, _ := gen.Build(gen.Script{Ops: ops})
+		kept := texttable.Wrap(tb)
+		first, err := texttable.Render(tb)
+		keptFirst, _ := kept.Render()
+		viaAuto, _ := auto.Render(tb, "texttable")
+		if err != nil || first != keptFirst || first != viaAuto {
+			ev.R().Fail(ID, Case{Script: gen.Script{Ops: ops}}, ev.V("the default decoration renders differently through texttable.Render, a kept wrapper and auto \"texttable\""))
+			t.Fatalf("VIOLATION %s", ID)
+		}
+		for _, stock := range []string{decoration.D_UTF8_HEAVY, decoration.D_UTF8_LIGHT, decoration.D_NONE, decoration.D_ASCII_SIMPLE} {
+			old := decoration.Named(stock)
+			decoration.RegisterDecorationName(stock, decoration.UTF8BoxDouble())
+			again, _ := texttable.Render(tb)
+			keptAgain, _ := kept.Render()
+			autoAgain, _ := auto.Render(tb, "texttable")
+			decoration.RegisterDecorationName(stock, old)
+			n++
+			ev.R().EvalEnum(nil, true)
+			if again != first || keptAgain != first || autoAgain != first {
+				ev.R().Fail(ID, Case{Script: gen.Script{Ops: ops}}, ev.V("after the application registered another decoration under the stock name %q, the same table rendered with the DEFAULT decoration no longer gives the bytes of the first time\n--- now\n%s\n--- first\n%s", stock, again, first))
+				t.Fatalf("VIOLATION %s", ID)
+			}
+		}
+	}
+	ev.R().Sub(ev.SubRun{Name: "default-decoration", Bound: "2 tables x 4 stock names re-registered x {texttable.Render, kept wrapper, auto texttable}", Cases: n, Exhaustive: true})
+}
